@@ -141,6 +141,63 @@ class SetGen(object):
     def count(self, k, n=1):
         self.stats[k] = self.stats.get(k, 0) + n
 
+    # ------------------------------------------------------------------ names
+    # The same name may be defined in several modules (legal, and a classic trigger for state
+    # leaking between modules): a module never imports a name it also defines, nor the same
+    # name from two modules.
+    def _reuse(self, mod, upper):
+        rng = self.rng
+        if rng.random() >= self.p.get('p_reuse_name', 0.12):
+            return None
+        pool = [n for m in self.modules if m is not mod for n in m.local_names
+                if (n[0].isupper() == upper) and n.replace('-', '_').lower() not in mod.taken]
+        if not pool:
+            return None
+        name = rng.choice(pool)
+        self.count('names_reused_across_modules')
+        return name
+
+    def lname(self, mod, suffix=''):
+        name = self._reuse(mod, False) if not suffix else None
+        for _ in range(50):
+            if name is None:
+                name = self.namer.lower(mod.prefix) + suffix
+            if name.replace('-', '_').lower() not in mod.taken:
+                break
+            name = None
+        mod.taken.add(name.replace('-', '_').lower())
+        mod.local_names.append(name)
+        return name
+
+    def uname(self, mod, suffix=''):
+        name = self._reuse(mod, True) if not suffix else None
+        for _ in range(50):
+            if name is None:
+                name = self.namer.upper(mod.tprefix) + suffix
+            if name.replace('-', '_').lower() not in mod.taken:
+                break
+            name = None
+        mod.taken.add(name.replace('-', '_').lower())
+        mod.local_names.append(name)
+        return name
+
+    def _fresh_with_suffix(self, mod, base, suffix):
+        name = base + suffix
+        if name.replace('-', '_').lower() in mod.taken or not self.namer._free(name):
+            return self.lname(mod)
+        mod.taken.add(name.replace('-', '_').lower())
+        mod.local_names.append(name)
+        return name
+
+    def importable(self, mod, other, name):
+        """may `mod` import `name` from module `other` without clashing with what it has?"""
+        key = name.replace('-', '_').lower()
+        if other == mod.name:
+            return True
+        if key in mod.imported:
+            return mod.imported[key] == other
+        return key not in mod.taken
+
     # ------------------------------------------------------------------ OIDs
     def arcs(self, parent_truth, first_numeric_root=False):
         rng = self.rng
@@ -201,7 +258,8 @@ class SetGen(object):
         """OID below an existing node (local, or imported from an earlier module)."""
         rng = self.rng
         local = [k for k in mod.node_keys]
-        foreign = [k for m in self.modules for k in m.node_keys if m is not mod]
+        foreign = [k for m in self.modules for k in m.node_keys
+                   if m is not mod and self.importable(mod, k[0], k[1])]
         if parent_key is None:
             cands = []
             if local:
@@ -252,10 +310,16 @@ class SetGen(object):
         m.tprefix = 'Vt' + m.prefix.capitalize()
         m.node_keys = []
         m.needs = []
+        m.taken = set()         # lower-cased python names defined locally or imported
+        m.local_names = []
+        m.imported = {}
 
         def need(module, sym, m=m):
             if module != m.name and (module, sym) not in m.needs:
                 m.needs.append((module, sym))
+                key = sym.replace('-', '_').lower()
+                m.imported.setdefault(key, module)
+                m.taken.add(key)
         m.need = need
         self.modules.append(m)
         return m
@@ -270,7 +334,7 @@ class SetGen(object):
 
     def gen_identity(self, mod):
         rng = self.rng
-        d = Decl('moduleidentity', self.namer.lower(mod.prefix))
+        d = Decl('moduleidentity', self.lname(mod))
         self.common(d, mod, 'MODULE-IDENTITY')
         d.status = None
         d.ref = None
@@ -285,9 +349,9 @@ class SetGen(object):
     def gen_node(self, mod):
         rng = self.rng
         if rng.random() < 0.6:
-            d = Decl('value', self.namer.lower(mod.prefix))
+            d = Decl('value', self.lname(mod))
         else:
-            d = Decl('objectidentity', self.namer.lower(mod.prefix))
+            d = Decl('objectidentity', self.lname(mod))
             self.common(d, mod, 'OBJECT-IDENTITY')
         d.oid = self.child_oid(mod)
         return self.register(mod, d)
@@ -298,7 +362,7 @@ class SetGen(object):
 
     def gen_scalar(self, mod, syntax=None, role='scalar', parent_key=None, access=None):
         rng = self.rng
-        d = Decl('objecttype', self.namer.lower(mod.prefix))
+        d = Decl('objecttype', self.lname(mod))
         self.common(d, mod, 'OBJECT-TYPE')
         d.syntax = syntax or self.syntax_for_object(mod)
         d.units = self.text(rng) if rng.random() < 0.25 else None
@@ -329,10 +393,9 @@ class SetGen(object):
     def gen_table(self, mod):
         rng = self.rng
         pfx = mod.prefix
-        tname = self.namer.lower(pfx)
-        base = tname
-        seqname = self.namer.upper(mod.tprefix)
-        table = Decl('objecttype', tname + 'Table' if self.namer._free(tname + 'Table') else self.namer.lower(pfx))
+        base = self.namer.lower(pfx)
+        seqname = self.uname(mod)
+        table = Decl('objecttype', self.lname(mod, 'Table') if False else self._fresh_with_suffix(mod, base, 'Table'))
         self.common(table, mod, 'OBJECT-TYPE')
         table.syntax = Syn(seqname, kind='seqof')
         table.units = None
@@ -344,7 +407,7 @@ class SetGen(object):
         self.register(mod, table)
         tkey = (mod.name, table.name)
 
-        row = Decl('objecttype', base + 'Entry' if self.namer._free(base + 'Entry') else self.namer.lower(pfx))
+        row = Decl('objecttype', self._fresh_with_suffix(mod, base, 'Entry'))
         self.common(row, mod, 'OBJECT-TYPE')
         row.syntax = Syn(seqname, kind='type')
         row.syntax.rowref = True
@@ -379,7 +442,7 @@ class SetGen(object):
 
         # INDEX or AUGMENTS
         foreign_rows = [r for m in self.modules if m is not mod for r in self.rows.get(m.name, [])
-                        if r.index is not None]
+                        if r.index is not None and self.importable(mod, m.name, r.name)]
         local_rows = [r for r in self.rows.get(mod.name, []) if r is not row and r.index is not None]
         if (foreign_rows or local_rows) and rng.random() < self.p.get('p_augments', 0.25):
             cands = local_rows + (foreign_rows if rng.random() < 0.6 else [])
@@ -396,7 +459,8 @@ class SetGen(object):
             idx = []
             pool_local = list(cols)
             foreign_cols = [c for m in self.modules if m is not mod
-                            for c in self.objects.get(m.name, []) if c.role == 'column']
+                            for c in self.objects.get(m.name, [])
+                            if c.role == 'column' and self.importable(mod, m.name, c.name)]
             for i in range(nidx):
                 if foreign_cols and rng.random() < self.p.get('p_foreign_index', 0.3):
                     c = rng.choice(foreign_cols)
@@ -425,7 +489,8 @@ class SetGen(object):
         """ordered list of (module, name) of objects, local and imported"""
         rng = self.rng
         local = list(kinds.get(mod.name, []))
-        foreign = [(m.name, o) for m in self.modules if m is not mod for o in kinds.get(m.name, [])]
+        foreign = [(m.name, o) for m in self.modules if m is not mod for o in kinds.get(m.name, [])
+                   if self.importable(mod, m.name, o.name)]
         out = []
         n = rng.randint(lo, hi)
         for _ in range(n):
@@ -449,7 +514,7 @@ class SetGen(object):
 
     def gen_notification(self, mod):
         rng = self.rng
-        d = Decl('notificationtype', self.namer.lower(mod.prefix))
+        d = Decl('notificationtype', self.lname(mod))
         self.common(d, mod, 'NOTIFICATION-TYPE')
         d.objects = self.pick_objects(mod, self.objects, 0, self.p.get('max_list', 5))
         d.oid = self.child_oid(mod)
@@ -459,13 +524,14 @@ class SetGen(object):
 
     def gen_trap(self, mod):
         rng = self.rng
-        d = Decl('traptype', self.namer.lower(mod.prefix))
+        d = Decl('traptype', self.lname(mod))
         mod.need('RFC-1215', 'TRAP-TYPE')
         d.descr = self.text(rng) if rng.random() < 0.7 else None
         d.ref = self.text(rng) if rng.random() < 0.3 else None
         d.objects = self.pick_objects(mod, self.objects, 0, 4)
         # enterprise: a bare name (the only form valid SMIv1 knows)
-        keys = list(mod.node_keys) + [k for m in self.modules if m is not mod for k in m.node_keys]
+        keys = list(mod.node_keys) + [k for m in self.modules if m is not mod for k in m.node_keys
+                                      if self.importable(mod, k[0], k[1])]
         if not keys:
             self.gen_node(mod)
             keys = list(mod.node_keys)
@@ -498,7 +564,7 @@ class SetGen(object):
             pool = dict((m, [n for n in v if n.kind == 'notificationtype'])
                         for m, v in self.notifs.items())
             if any(pool.values()):
-                d = Decl('notificationgroup', self.namer.lower(mod.prefix))
+                d = Decl('notificationgroup', self.lname(mod))
                 self.common(d, mod, 'NOTIFICATION-GROUP')
                 d.objects = self.pick_objects(mod, pool, 1, self.p.get('max_list', 5))
                 if d.objects:
@@ -508,7 +574,7 @@ class SetGen(object):
                     return d
         if not have_o:
             return None
-        d = Decl('objectgroup', self.namer.lower(mod.prefix))
+        d = Decl('objectgroup', self.lname(mod))
         self.common(d, mod, 'OBJECT-GROUP')
         d.objects = self.pick_objects(mod, self.objects, 1, self.p.get('max_list', 5))
         if not d.objects:
@@ -525,7 +591,7 @@ class SetGen(object):
             groups[m.name] = self.ogroups.get(m.name, []) + self.ngroups.get(m.name, [])
         if not any(groups.values()):
             return None
-        d = Decl('modulecompliance', self.namer.lower(mod.prefix))
+        d = Decl('modulecompliance', self.lname(mod))
         self.common(d, mod, 'MODULE-COMPLIANCE')
         d.modules = []
         nm = rng.randint(1, 3)
@@ -568,7 +634,7 @@ class SetGen(object):
 
     def gen_capabilities(self, mod):
         rng = self.rng
-        d = Decl('agentcapabilities', self.namer.lower(mod.prefix))
+        d = Decl('agentcapabilities', self.lname(mod))
         self.common(d, mod, 'AGENT-CAPABILITIES')
         d.release = self.text(rng)
         d.supports = []
@@ -636,7 +702,7 @@ class SetGen(object):
         if rng.random() < 0.4:
             body = ' a INTEGER,\n b OCTET STRING -- c; "q"\n'
             mod.decls.insert(rng.randint(0, len(mod.decls)),
-                             Decl('choice', self.namer.upper(mod.tprefix), body=Raw(body)))
+                             Decl('choice', self.uname(mod), body=Raw(body)))
             self.count('choice_block')
         if rng.random() < 0.3:
             mod.exports = Raw(' everything, and more -- "x" END\n ')
